@@ -15,7 +15,7 @@ import "verif/ev"
 
 func main() {
 	r := ev.New("C14")
-	r.Rule("setops/rand: one case = 10 inputs, setops/small-*: one case = 1 input; an input = (s1, s2) over an alphabet of 1..9 values (int, string or {key,id} pair elements; nil, empty, duplicates), an input aliasing mode (independent, s2==s1, s2=s1[a:b], s1=s2[a:b]), a key function and a predicate; all 5 functions with several dst layouts (nil, empty, spare/short capacity, non-empty garbage, s1[:0], s1[:k], s1[:0:0], s2[:0]) and the 5 in-place variants run on it; distinct = hash of (element type, contents, aliasing, key, predicate), non-trivial = s1 has 2+ elements or s2 is non-empty. bounds: one case = one slice (nil/empty/1..33 elements, spare capacity holding poison) with every start/end/length/index in -3..len+3 plus MinInt/MaxInt and every chunk size in -2..len+3; distinct = hash of contents and layout. flex: one case = an operation sequence on a FlexSlice (zero value or caller-built Values with spare capacity) with the whole sequence compared after every operation; distinct = hash of the operation sequence.")
+	r.Rule("setops/rand: one case = 10 inputs, setops/small-*: one case = 1 input; an input = (s1, s2) over an alphabet of 1..9 values (int, string or {key,id} pair elements; nil, empty, duplicates), an input aliasing mode (independent, s2==s1, s2=s1[a:b], s1=s2[a:b]), a key function and a predicate; all 5 functions with several dst layouts (nil, empty, spare/short capacity, non-empty garbage, s1[:0], s1[:k], s1[:0:0], s2[:0]) and the 5 in-place variants run on it; distinct = hash of (element type, contents, aliasing, key, predicate) of all inputs of the case, non-trivial = s1 has 2+ elements or s2 is non-empty. bounds: one case = one slice (nil/empty/1..33 elements, spare capacity holding poison) with every start/end/length/index in -3..len+3 plus MinInt/MaxInt and every chunk size in -2..len+3; distinct = hash of contents and layout. flex: one case = an operation sequence on a FlexSlice (zero value or caller-built Values with spare capacity) with the whole sequence compared after every operation; distinct = hash of the operation sequence.")
 	r.Assume("the references (nested loops, written from the doc comments) are the definitions: Diff/Intersect/Filter keep the elements of s1 that are absent from / present in s2 / satisfy the predicate, Unique/UniqueByKey keep the first occurrence per value / key")
 	r.Assume("results are compared by content: nil and empty are the same observation; capacities are read for coverage counters only")
 	r.Assume("dst aliasing is exercised as the prefix [:0] (or [:k], [:0:0]) of an input; when s2 is itself a sub-slice of s1 starting behind s1[0], dst = s2[:0] is not used (a destination in the middle of the slice being read is not covered by the statement)")
@@ -24,7 +24,7 @@ func main() {
 
 	r.Assume("flex/selfarg: the value of a variadic argument is its content at the time of the call, also when the caller passes a sub-slice of the exported f.Values (as append and slices.Insert guarantee)")
 
-	r.Cases("setops/rand", r.N(150000, 3000000), ev.Opt{HangViolation: true}, randSetCase)
+	r.Cases("setops/rand", r.N(100000, 3000000), ev.Opt{HangViolation: true}, randSetCase)
 	small := smallScope{sym: 3, len1: 5, len2: 3}
 	if r.Thorough() {
 		small = smallScope{sym: 4, len1: 6, len2: 3}
@@ -32,7 +32,7 @@ func main() {
 	r.Cases("setops/small-int", small.total(), ev.Opt{HangViolation: true}, func(c *ev.Case) { smallRun(small, instInt, c) })
 	r.Cases("setops/small-pair", small.total(), ev.Opt{HangViolation: true}, func(c *ev.Case) { smallRun(small, instPair, c) })
 	r.Cases("bounds", r.N(60000, 1200000), ev.Opt{HangViolation: true}, boundsCase)
-	r.Cases("flex/mix", r.N(150000, 3000000), ev.Opt{HangViolation: true}, flexMixCase)
+	r.Cases("flex/mix", r.N(100000, 3000000), ev.Opt{HangViolation: true}, flexMixCase)
 	r.Cases("flex/threshold", r.N(40000, 800000), ev.Opt{HangViolation: true}, flexThresholdCase)
 	r.Cases("flex/selfarg", r.N(10000, 200000), ev.Opt{HangViolation: true}, flexSelfArgCase)
 
